@@ -423,18 +423,22 @@ def run(tier, seed):
     n_zok = 0
     for (c, dr, fr), rq, h in zip(zmeta, zreq, zo):
         good = False
+        a = b = None
+        w = b""
+        szl = szl_in = 2
         if h.startswith("ok") and f"consumed={len(fr)} " in h + " ":
             a, b = zsplit(fr), zsplit(bytes.fromhex(h.split()[1]))
             w = bytes.fromhex(h.split()[1])
             szl = 3 if (libname(c) == "wrath" and dr == "server" and w[0] & 0x80) else 2
+            szl_in = 3 if (libname(c) == "wrath" and dr == "server" and fr[0] & 0x80) else 2        # the input frame may need the large header itself
             size_ok = (int.from_bytes(w[:szl], "big") & 0x7FFFFF if szl == 3 else int.from_bytes(w[:2], "big")) == len(w) - szl
             if a is None:
                 good = w == fr          # the branch with the compressed member was not taken: plain byte equality
             else:
-                good = b is not None and a[0][2:] == b[0][szl:] and a[1] == b[1] and size_ok
+                good = b is not None and a[0][szl_in:] == b[0][szl:] and a[1] == b[1] and size_ok
         if good:
             n_zok += 1
-        elif h.startswith("ok") and a is not None and (b := zsplit_loose(w)) is not None and a[1] == b[1] and a[0][2:-4] == b[0][szl:-4] and a[0][-4:] != b[0][-4:] \
+        elif h.startswith("ok") and a is not None and w and (b := zsplit_loose(w)) is not None and a[1] == b[1] and a[0][szl_in:-4] == b[0][szl:-4] and a[0][-4:] != b[0][-4:] \
                 and has_flag_elseif(c.get("zmsg_tokens") or c.get("ztokens") or []):
             # same fields, same payload — only the announced decompressed size differs: the writer takes it from size() of the contents, which is the wrong
             # constant of the synthesised flag struct (the known finding, here without the size assertion of the plain writers)
